@@ -10,6 +10,7 @@ KEYS = [
     "doctrans.defaults_utils:_remove_default_from_param",
     "doctrans.pure_utils:update_d",
     "doctrans.docstring_utils:emit_param_str",
+    "doctrans.emit:docstring",
 ]
 
 
